@@ -6,11 +6,11 @@
 EXTENDS Naturals, Integers, Sequences, TLC, Json
 CONSTANT TraceFile
 Traces == ndJsonDeserialize(TraceFile)
-VARIABLES tr, l, ready, last
-vars == <<tr, l, ready, last>>
+VARIABLES tr, l, ready, last, glob       \* glob: the global limit as configured NOW (events [k |-> "global", q])
+vars == <<tr, l, ready, last, glob>>
 T == Traces[tr]
 Ev == T.events[l]
-Init == tr \in DOMAIN Traces /\ l = 1 /\ ready = FALSE /\ last = [k |-> "none", q |-> 0, b |-> 0]
+Init == tr \in DOMAIN Traces /\ l = 1 /\ ready = FALSE /\ last = [k |-> "none", q |-> 0, b |-> 0] /\ glob = T.global
 \* what the measured admission must be
 MifOK(e) == /\ e.admitted <= T.global                                           \* never more than the global limit, whatever the server said
             /\ (~ready \/ T.nilcs) => e.admitted = T.local                       \* server unknown / not ready: exactly the local limit
@@ -25,17 +25,18 @@ TbOK(e) == /\ e.admitted <= TbBound(T.global, T.globalBurst, e.window)
 \* global-COUNT strategy (GlobalCount.tla): events [k |-> "acq", gk |-> "accept"|"reject"|"fail"|"tooold", q]; every measurement is taken
 \* after the gateway was left without traffic for longer than the watchdog and resync periods since the server changed its behaviour
 ClampTo(q, lo, hi) == IF q < lo THEN lo ELSE IF q > hi THEN hi ELSE q
-GcMifOK(e) == /\ e.admitted <= T.global /\ e.admitted >= 0                        \* whatever the server answered
+GcMifOK(e) == /\ e.admitted <= glob /\ e.admitted >= 0                        \* whatever the server answered
               /\ ~ready => e.admitted = T.local
               /\ (ready /\ last.k = "fail") => e.admitted = T.local                  \* failing server: the local limit, not a stale quota and not none
-              /\ (ready /\ last.k = "accept") => e.admitted = ClampTo(last.q, 1, T.global)   \* a granted quota takes effect (the instance keeps a reserve of 1)
-              /\ (ready /\ last.k = "reject") => e.admitted <= ClampTo(last.q, 0, T.global)
+              /\ (ready /\ last.k = "accept") => e.admitted = ClampTo(last.q, 1, glob)   \* a granted quota takes effect (the instance keeps a reserve of 1)
+              /\ (ready /\ last.k = "reject") => e.admitted <= ClampTo(last.q, 0, glob)
 GcTbOK(e) == /\ e.admitted <= TbBound(T.global, T.globalBurst, e.window)
              /\ (~ready \/ last.k = "fail") => (e.admitted <= TbBound(T.local, T.localBurst, e.window) /\ e.admitted >= T.local * (e.window - 1))
 Accept == Ev.k = "measure" => IF T.strategy = "globalCount" THEN (IF T.type = "mif" THEN GcMifOK(Ev) ELSE GcTbOK(Ev))
                               ELSE IF T.type = "mif" THEN MifOK(Ev) ELSE TbOK(Ev)
 Next == /\ l <= Len(T.events) /\ Accept /\ l' = l + 1 /\ tr' = tr
         /\ ready' = IF Ev.k = "ready" THEN Ev.v ELSE ready
+        /\ glob' = IF Ev.k = "global" THEN Ev.q ELSE glob
         /\ last' = IF Ev.k \in {"reply", "replyerr"} THEN [k |-> Ev.k, q |-> Ev.q, b |-> Ev.b]
                    ELSE IF Ev.k = "acq" /\ Ev.gk # "tooold" THEN [k |-> Ev.gk, q |-> Ev.q, b |-> 0] ELSE last
 Spec == Init /\ [][Next]_vars
